@@ -2616,6 +2616,30 @@ func r08_5(c *Ctx) {
 		c.anchor("findIDInQueue")
 		return
 	}
+	// the ring is only walked, and its head element only read, when it holds something: an empty ring has
+	// head == tail, which queue.each takes for "full", so every slot - all zero values - is visited
+	{
+		isCount := func(v ssa.Value) bool { _, ok := isFieldLoad(v, "queue", "count"); return ok }
+		var unguarded ssa.Instruction
+		nScan := 0
+		eachInstr(fn, func(in ssa.Instruction) {
+			if isQueueCall(in, "each") == nil {
+				return
+			}
+			nScan++
+			if !intGuard(fn, in.Block(), isCount, 0, 1, posInf) {
+				unguarded = in
+			}
+		})
+		if nScan > 0 {
+			pos := P.pos(fn.Pos())
+			if unguarded != nil {
+				pos = P.ipos(unguarded)
+			}
+			c.check(unguarded == nil, fnLabel(fn)+":scan-only-when-non-empty", pos, "the buffer is searched only where count != 0 was established",
+				"the buffer is searched although it may be empty: with head == tail queue.each visits every slot, and the ID of a zero slot's nil message is read (a panic, after which Joe disables the replayer for everybody)")
+		}
+	}
 	results, why := lookupProtocol(fn, 0)
 	if why != "" {
 		c.undecided(fnLabel(fn)+":protocol", P.pos(fn.Pos()), why)
@@ -3566,6 +3590,13 @@ func r09_8(c *Ctx) {
 					if k > floor {
 						floor = k
 					}
+					continue
+				}
+				if _, isCnt := isFieldLoad(s, "queue", "count"); isCnt {
+					// resize(count): the new buffer is exactly full, so resize leaves tail == len(buf)
+					n++
+					c.bad(fnLabel(fn)+":shrink-keeps-room", P.ipos(call), "the buffer is resized to the number of buffered elements itself: resize then leaves tail == len(buf), a position findIDInQueue's wrapped index never equals, so presenting the newest ID replays the whole buffer (and the next enqueue writes out of range)")
+					shape = false
 					continue
 				}
 				b, isB := s.(*ssa.BinOp)
